@@ -441,7 +441,7 @@ def r19_4(ctx):
                         tt = b.blocks[tb]["term"]
                         if tt["k"] != "switch":
                             continue
-                        reach = [(sx == cb or b.can_reach(sx, cb)) for sx in b.succ(tb)]
+                        reach = [(sx == cb or b.can_reach(sx, cb)) for sx in b.succ(tb) if b.blocks[sx]["term"]["k"] != "unreachable"]
                         if any(reach) and not all(reach):
                             d_ = pvb.operand(tt["d"])
                             if mentions(d_, lambda y: y[0] == "call" and y[1] in STATUS_CALLS):
